@@ -88,3 +88,9 @@ func poolOfIP(cfg world.Config, ip string) *floatingip.FloatingIPPool {
 	}
 	return nil
 }
+
+func parseIP(s string) net.IP { return net.ParseIP(s) }
+
+func fipAttr(policy constant.ReleasePolicy, uid string) floatingip.Attr {
+	return floatingip.Attr{Policy: policy, Uid: uid}
+}
